@@ -213,6 +213,9 @@ class DESolver:
             X0 = self._unflattenX(X0_flat, self._X0)
             
             currTime += dt
+            #Round-off in (tf - currTime) + currTime can land one ulp past tf; never report a time beyond the end time
+            if currTime > tf:
+                currTime = tf
             X0, stop = self.postProcess(currTime, X0)
             i += 1
 
